@@ -43,6 +43,7 @@ KINDS = [
     ("altloc-pair-B-first", lambda i: [_atom("ATOM", 100 + i, f"HD2{i}", "LEU", "A", 5, _x(i, 7), alt="B"), _atom("ATOM", 200 + i, f"HD2{i}", "LEU", "A", 5, _x(i, 7) + 0.5, alt="A")]),
     ("altloc-pair-alias-name", lambda i: [_atom("ATOM", 100 + i, "CD", "ILE", "A", 6, _x(i, 20), alt="A"), _atom("ATOM", 200 + i, "CD", "ILE", "A", 6, _x(i, 20) + 0.5, alt="B")] if i == 0 else [_atom("ATOM", 100 + i, ["", "HN", "1HB", "2HB", "3HB", "HN2"][i], "ILE", "A", 6, _x(i, 20), alt="A"), _atom("ATOM", 200 + i, ["", "HN", "1HB", "2HB", "3HB", "HN2"][i], "ILE", "A", 6, _x(i, 20) + 0.5, alt="B")]),
     ("hetatm-water", lambda i: [_atom("HETATM", 100 + i, "O", "HOH", "A", 30 + i, _x(i, 8))]),
+    ("water-in-atom-record", lambda i: [_atom("ATOM", 100 + i, "O", ["HOH", "WAT"][i % 2], "A", 45 + i, _x(i, 21))]),
     ("hetatm-water-serial-10000", lambda i: [_atom("HETATM", 10000 + i, "O", "HOH", "A", 40 + i, _x(i, 9))]),
     ("atom-serial-100000", lambda i: [_atom("ATOM", 99999, "CA", "ALA", "A", 70 + i, _x(i, 19)).replace("ATOM  99999", "ATOM 100000")]),
     ("hetatm-ligand", lambda i: [_atom("HETATM", 100 + i, "C1", "LIG", "A", 50 + i, _x(i, 10))]),
@@ -59,7 +60,7 @@ KINDS = [
     ("CONECT", lambda i: ["CONECT  413  412  414"]),
 ]
 KIND_NAMES = [k for k, _ in KINDS]
-QUICK_KINDS = ["atom-new-residue", "atom-same-residue", "atom-insertion-code", "altloc-pair-B-first", "altloc-pair-alias-name", "hetatm-water", "hetatm-water-serial-10000", "hetatm-ligand", "atom-cut-after-z", "TER", "END", "blank-line", "unknown-record"]
+QUICK_KINDS = ["water-in-atom-record", "atom-new-residue", "atom-same-residue", "atom-insertion-code", "altloc-pair-B-first", "altloc-pair-alias-name", "hetatm-water", "hetatm-water-serial-10000", "hetatm-ligand", "atom-cut-after-z", "TER", "END", "blank-line", "unknown-record"]
 
 PREFIX = ["HEADER    TEST", _atom("ATOM", 1, "N", "GLY", "A", 1, 1.5), _atom("ATOM", 2, "CA", "GLY", "A", 1, 2.5)]
 SUFFIX = [_atom("ATOM", 900, "CA", "ALA", "A", 99, 900.5), _atom("HETATM", 901, "O", "HOH", "A", 98, 901.5), "TER", "END"]
